@@ -2383,7 +2383,10 @@ class Array:
         """
         if not isinstance(other, Array) or not np.isscalar(prefactor):
             raise ValueError(f'wrong argument types: {type(prefactor)!r}, {type(other)!r}')
+        calc_dtype = np.result_type(self.dtype, other.dtype, prefactor)
         self.ibinary_blockwise(np.add, other.__mul__(prefactor))
+        if len(self._data) == 0:
+            self.dtype = calc_dtype  # no block to read the type from
         return self
 
     @use_cython(replacement='Array_iscale_prefactor')
@@ -2399,7 +2402,11 @@ class Array:
             self._qdata = np.empty((0, self.rank), np.intp)
             self._qdata_sorted = True
             return self
-        return self.iunary_blockwise(np.multiply, prefactor)
+        calc_dtype = np.result_type(self.dtype, prefactor)
+        self.iunary_blockwise(np.multiply, prefactor)
+        if len(self._data) == 0:
+            self.dtype = calc_dtype  # no block to read the type from
+        return self
 
     def __add__(self, other):
         """Return ``self + other``."""
